@@ -101,6 +101,30 @@ def pTagDiv : Expr → Bool
 /-- class `division_after_tag_typed_ref`: a `/` right after `::tag` / `::field`. -/
 def NoTagTypedBeforeDiv : Expr → Bool := allNodes pTagDiv
 
+def pTypes : Expr → Bool
+  | .varRef _ ty => typeRT ty
+  | _ => true
+
+/-- class `duration_typed_ref`: the grammar accepts the type name `duration` when it is written
+as a quoted identifier (`a::"duration"`); it is printed bare, where it is the keyword DURATION. -/
+def TypesReadBack : Expr → Bool := allNodes pTypes
+
+def pDur : Expr → Bool
+  | .dur d => decide (0 ≤ d) && decide (d ≤ maxInt64)
+  | _ => true
+
+/-- not a defect class: a DurationLiteral of the statement parser is never negative (the scanner
+cannot produce a DURATIONVAL that starts with `-`, see `yacc_durs_in_range`). -/
+def DursInRange : Expr → Bool := allNodes pDur
+
+def pSets : Expr → Bool
+  | .set vals => setRT vals
+  | _ => true
+
+/-- not a defect class: the members of a SetLiteral, printed in key order, are read back into
+the same key set (holds for every set the model builds; the driver checks it on every case). -/
+def SetsReadBack : Expr → Bool := allNodes pSets
+
 /-! ### what the statement grammar produces -/
 
 /-- a child that `Precedence()` would group differently is one of the three grouping defects. -/
@@ -117,20 +141,15 @@ def argsNoSet : Args → Bool
   | .nil => true
   | .cons a r => noSetFirst a && argsNoSet r
 
-/-- literals in range / canonical, types printable, operators known to `ParseExpr`, sets only
-to the right of IN. -/
+/-- literals in range / canonical, operators known to `ParseExpr`, sets only to the right of IN. -/
 def nodeOK : Expr → Bool
-  | .varRef _ ty => typeRT ty
   | .int v => decide (minInt64 ≤ v) && decide (v ≤ maxInt64)
   | .num n => n.scale = 0 || n.mant % 10 != 0
-  | .dur d => decide (0 ≤ d) && decide (d ≤ maxInt64)
   | .uns _ | .numInf | .numNegInf | .numNaN => false
-  | .set vals => setRT vals
   | .call name args => lower name = name && argsNoSet args
   | .paren e => noSetFirst e
   | .binary op l r =>
-    isOperator op && noSetFirst l &&
-      (if isInOp op then r.isSet else noSetFirst r)
+    isOperator op && noSetFirst l && (if isInOp op then r.isSet else noSetFirst r)
   | _ => true
 
 def YaccOut (e : Expr) : Bool :=
